@@ -1184,7 +1184,9 @@ theorem pdst_exact_goal (P : CPDST.Problem S U α ρ)
       ∃ m, (CPDST.solve P g starts draws).final.motions[l]? = some m) := by
   have hg := (CPDST.solve_good P hrng g starts draws).2
   have hs := CPDST.solve_status P g starts draws
-  exact ⟨fun he => hg.2 (hs.2.1 he), hs.2.2.1, hg.1⟩
+  exact ⟨fun he => by
+    obtain ⟨l, m, a, b, c, _⟩ := hg.2 (hs.2.1 he)
+    exact ⟨l, m, a, b, c⟩, hs.2.2.1, hg.1⟩
 
 /-- **status and `lastGoalMotion_`**: exact or approximate exactly when a goal motion was recorded;
 a path is reported only then. -/
@@ -1252,7 +1254,7 @@ theorem pdst_exact_path_in_goal (P : CPDST.Problem S U α ρ)
   obtain ⟨l', m', e1, e2, e3⟩ := hg.2 ((CPDST.solve_status P g starts draws).2.1 hex)
   rw [hl] at e1; cases Option.some.inj e1
   rw [h4] at e2; cases Option.some.inj e2
-  exact ⟨lm.stop, hlast, e3⟩
+  exact ⟨lm.stop, hlast, e3.1⟩
 
 /-- **every path PDST reports passes `PathControl::check`, before and after `interpolate`**
 (same hypotheses as `pdst_solution_replays`). -/
